@@ -170,8 +170,16 @@ impl Sched {
     }
 
     pub fn spawn<F: FnOnce(&ThreadCtx) + Send + 'static>(&mut self, tid: usize, f: F) {
+        self.spawn_pre(tid, || (), move |ctx, _| f(ctx))
+    }
+
+    /// like `spawn`, with a prelude that runs on the new thread BEFORE it comes under the scheduler (used to let one of the
+    /// scripted threads be the thread that creates the object under test)
+    pub fn spawn_pre<X: 'static, P: FnOnce() -> X + Send + 'static, F: FnOnce(&ThreadCtx, X) + Send + 'static>(&mut self, tid: usize, pre: P, f: F) {
         let c = self.c.clone();
         self.handles[tid] = Some(std::thread::spawn(move || {
+            let x = pre();
+            let f = move |ctx: &ThreadCtx| f(ctx, x);
             let th = Arc::new(TH { tid, c: c.clone() });
             set_thread_hook(Some(th));
             let ctx = ThreadCtx { tid, c: c.clone() };
